@@ -399,6 +399,14 @@ class SlotAnalysis:
                 out.extend(inlined(self.sm, f) for f in self.sm.funcs_in(short) if not self._is_inlined_helper(f))
         return out
 
+    def _may_number_slots(self, f: Func) -> bool:
+        for n in ast.walk(f.node):
+            if isinstance(n, ast.Call):
+                d = dotted(n.func) or ""
+                if d.split(".")[-1] in ("IndexedBase", "Matrix") or (isinstance(n.func, ast.Attribute) and n.func.attr.endswith("_index") and (dotted(n.func.value) or "").endswith("template")):
+                    return True
+        return False
+
     def _is_inlined_helper(self, f: Func) -> bool:
         """Private helpers that are expanded into their callers are analysed there (with the caller's arguments)."""
         if "." not in f.qualname or not f.name.startswith("_") or f.name.startswith("__"):
@@ -449,6 +457,18 @@ class SlotAnalysis:
             self._template_lists(f)
             self._matrices(f)
             mine = self.producers[n0:]
+            if self._may_number_slots(f) and not any(p.desc.opaque and p.desc.unknown for p in mine):
+                # families the syntax does not show although the function indexes a slot array or fills an index
+                # template: the numbering may live in a helper or a lookup table - read it from the value
+                A = A or slots_av.make_av(self.sm)
+                orig = self.sm.funcs.get((f.rel, f.qualname), f)
+                ex = slots_av.Extract(self.sm, self.N, orig, A).run()
+                have = {p.family for p in mine}
+                extra = [p for p in ex.producers if p.family not in have] if not ex.unknown else []
+                if extra:
+                    self.producers.extend(extra)
+                    self.from_values.append(f.qualname)
+                continue
             if any(p.desc.opaque and p.desc.unknown for p in mine):
                 # the syntax does not lead back to the model's accessors: read the producers from what the function computes
                 A = A or slots_av.make_av(self.sm)
